@@ -11,12 +11,20 @@ Tie (correspondence, model = compiled Lean driver `deps`):
   * a token scan of every generated header (token -> facility table, nothing else) vs `facMust`/`facMay`:
     must <= scan <= must + may, and the model's own "uncovered" list must be empty;
   * `import` lines of every generated Python module vs `pyImports` / `pyModuleImports`;
-  * include-guard spelling and C++ namespace brackets vs `includeGuard` / `openNamespace` / `closeNamespace`.
+  * include-guard spelling and C++ namespace brackets vs `includeGuard` / `openNamespace` / `closeNamespace`;
+  * round 2: the option record the include logic reads (`standard_version`, allocator / VLA include, constructor convention,
+    support header paths) of the real Language object for every `--language-standard` choice vs `cliOpts` (Model/DepsOpts.lean,
+    fed by the tables regenerated from the tree: translate/cppdefaults.py, clioptions.py, supportfiles.py, optiondomain.py);
+    `standard_version` on a list of `std` spellings vs `standardVersion`; the C / C++ reference names and the C++ macro name
+    of every composite (real filters) vs `cFullRef` / `cppFullRef` / `cppFullMacro`; the `#define`d names of every generated
+    C header in file order vs `cDefinesMsg` / `cDefinesSvc` (Model/Names.lean).
 Oracle / failing-input search (the property itself, on the implementation): every generated header alone in a
 one-line translation unit — gcc and clang -std=c11, the C header inside a C++ TU (g++ / clang++), g++ / clang++ for
 every C++ standard — with the flag set of verification/cmake/compiler_flag_sets/common.cmake + -Werror -fsyntax-only;
 every generated Python module compiled and imported with warnings as errors; every project-relative include must be
-a generated file; include guards of different headers must differ.
+a generated file; include guards of different headers must differ; round 2: the C reference names of different types of
+one universe must differ (a translation unit that includes both headers and uses a member of the second type must
+compile), no `#define` of a header may repeat a name outside the `#ifndef` / `#elif` pair of the capacity override.
 """
 import concurrent.futures as cf
 import json
@@ -372,10 +380,14 @@ def configurations(quick):
     cs.append(Cfg("c/big", "c", ["--target-endianness", "big"]))
     cs.append(Cfg("c/little", "c", ["--target-endianness", "little"]))
     cs.append(Cfg("c/nostd+omit", "c", [], omit=True, overrides={"use_standard_types": False}))
+    # round 2: one option at a time on the shape matrix (corpus/C06/matrix meets every configuration)
+    mx = ("corpus:matrix",) if quick else None
+    cs.append(Cfg("c/nostd", "c", [], overrides={"use_standard_types": False}, only=mx))
+    cs.append(Cfg("c/asserts", "c", ["--enable-serialization-asserts"], only=mx))
+    cs.append(Cfg("c/ovr", "c", ["--enable-override-variable-array-capacity"], only=mx))
+    cs.append(Cfg("c/nofloat+omit", "c", nofloat, omit=True, only=mx))
     if not quick:
-        cs.append(Cfg("c/nostd", "c", [], overrides={"use_standard_types": False}))
         cs.append(Cfg("c/big+asserts", "c", ["--target-endianness", "big", "--enable-serialization-asserts"]))
-        cs.append(Cfg("c/ovr", "c", ["--enable-override-variable-array-capacity"]))
         cs.append(Cfg("c/nofloat+allopts", "c", nofloat + all_opts))
         cs.append(Cfg("c/sysinc", "c", [], overrides={"prefer_system_includes": True}))
     # ---- C++
@@ -388,16 +400,21 @@ def configurations(quick):
     cs.append(Cfg("cpp/c++14+allopts", "cpp", all_opts, std="c++14"))
     cs.append(Cfg("cpp/c++17+big", "cpp", ["--target-endianness", "big"], std="c++17"))
     cs.append(Cfg("cpp/c++20+little", "cpp", ["--target-endianness", "little"], std="c++20"))
-    if not quick:
-        cs.append(Cfg("cpp/c++17+nofloat", "cpp", nofloat, std="c++17"))
+    cs.append(Cfg("cpp/c++17+nofloat", "cpp", nofloat, std="c++17", only=mx))
     # CETL is not available offline: generated and scanned, not compiled
     cs.append(Cfg("cpp/cetl++14-17+omit", "cpp", [], std="cetl++14-17", omit=True, compile_ok=False))
+    # round 2: use_standard_types off is compiled now (fixed in 3a07e2e / 6ea230a); one option at a time on the shape matrix
+    cs.append(Cfg("cpp/c++17+nostd+omit", "cpp", [], std="c++17", omit=True, overrides={"use_standard_types": False}, only=mx))
+    cs.append(Cfg("cpp/c++14+nostd", "cpp", [], std="c++14", overrides={"use_standard_types": False}, only=mx))
+    cs.append(Cfg("cpp/c++17+asserts", "cpp", ["--enable-serialization-asserts"], std="c++17", only=mx))
+    cs.append(Cfg("cpp/c++20+ovr", "cpp", ["--enable-override-variable-array-capacity"], std="c++20", only=mx))
+    cs.append(Cfg("cpp/c++17-pmr+allopts", "cpp", all_opts, std="c++17-pmr", only=mx))
+    cs.append(Cfg("cpp/default-std", "cpp", [], only=mx))                    # no --language-standard: the built-in `std`
+    cs.append(Cfg("cpp/cetl++14-17", "cpp", [], std="cetl++14-17", compile_ok=False, only=mx))
     if not quick:
-        cs.append(Cfg("cpp/c++17+nostd+omit", "cpp", [], std="c++17", omit=True, overrides={"use_standard_types": False}, compile_ok=False))
         cs.append(Cfg("cpp/c++17+allopts", "cpp", all_opts, std="c++17"))
         cs.append(Cfg("cpp/c++20+asserts", "cpp", ["--enable-serialization-asserts"], std="c++20"))
-        cs.append(Cfg("cpp/c++17-pmr+allopts", "cpp", all_opts, std="c++17-pmr"))
-        cs.append(Cfg("cpp/cetl++14-17", "cpp", [], std="cetl++14-17", compile_ok=False))
+        cs.append(Cfg("cpp/c++14+asserts", "cpp", ["--enable-serialization-asserts"], std="c++14"))
     # a documented value of ctor_convention that the generated types do not support themselves (finding): stress corpus only
     lead = {"options": {"variable_array_type_include": "<vector>", "variable_array_type_template": "std::vector<{TYPE}, {REBIND_ALLOCATOR}>",
                         "variable_array_type_constructor_args": "", "allocator_include": "<memory_resource>",
@@ -405,6 +422,13 @@ def configurations(quick):
                         "ctor_convention": "uses-leading-allocator"}}
     cs.append(Cfg("cpp/c++17+leading-allocator+omit", "cpp", [], std="c++17", omit=True, overrides=lead, only="corpus:stress",
                   cause="cpp-uses-leading-allocator"))
+    # round 2: the one combination of documented values that `_validate_language_options` accepts and that cannot compile
+    # (theorem C06_documented_values_deliver_iff): an allocator-aware constructor convention without `allocator_include`
+    noinc = {"options": {"allocator_include": "", "allocator_type": "std::pmr::polymorphic_allocator",
+                         "variable_array_type_template": "std::vector<{TYPE}, {REBIND_ALLOCATOR}>",
+                         "ctor_convention": "uses-trailing-allocator"}}
+    cs.append(Cfg("cpp/c++17+alloc-noinclude+omit", "cpp", [], std="c++17", omit=True, overrides=noinc, only="corpus:stress",
+                  cause="cpp-allocator-without-include"))
     # ---- Python
     cs.append(Cfg("py/default", "py", []))
     cs.append(Cfg("py/omit", "py", [], omit=True))
@@ -543,7 +567,7 @@ def compile_jobs_for(cfg, outdir, headers, flags, quick):
             jobs.append((outdir, h, ["g++", "-std=c++14"] + flags["cxx"] + flags["c_in_cxx_extra"] + flags["gnu_extra"], "c++"))
             jobs.append((outdir, h, ["clang++", "-std=c++14"] + flags["cxx"] + flags["c_in_cxx_extra"], "c++"))
     elif cfg.target == "cpp":
-        std = "-std=" + cfg.std.replace("-pmr", "")
+        std = "-std=" + (cfg.std or "c++14").replace("-pmr", "")
         for k, h in enumerate(headers):
             # quick tier: one of the two compilers per (header, configuration), alternating, so that every header meets both
             pick = (k + sum(map(ord, cfg.ident))) % 2 if quick else None
@@ -760,7 +784,216 @@ def replay_blob(uni, cfg, extra):
     return r
 
 
+# ---------------------------------------------------------------------------------------------------------------------
+# round 2: option record, standard_version, reference names, #define names
+# ---------------------------------------------------------------------------------------------------------------------
+
+STD_SPELLINGS = ["c++14", "c++17", "c++20", "c++17-pmr", "cetl++14-17", "c11", "gnu++14", "gnu++17", "gnu++20", "c++11", "c++03", "c++98",
+                 "c++23", "c++26", "c++2a", "c++1z", "gnu++2b", "c++", "c++1", "c+17", "C++17", "xc++17", " c++17", "c++17 ", "c++170",
+                 "c++_7", "c++1_", "c++0x", "gnu17", "g++17", "gnu++", "gnu++1", "gnuc++17", "++17", "c++17-foo", "c++9_", ""]
+
+
+def language_standard_choices():
+    """The choices of --language-standard as argparse holds them in the tree under check."""
+    from nunavut.cli import _make_parser
+    for a in _make_parser()._actions:
+        if "--language-standard" in a.option_strings:
+            return list(a.choices)
+    raise RuntimeError("--language-standard not found in the argument parser")
+
+
+def option_and_name_ties(ctx, drv, unis):
+    from nunavut.lang import LanguageContextBuilder, Language
+    import pydsdl
+    reqs, exp = [], []
+    # (a) the option record of every --language-standard choice (and none), omit x use_standard_types
+    for std in [None] + language_standard_choices():
+        for omit in (False, True):
+            for use_std in (True, False):
+                c = Cfg(f"cpp/{std}", "cpp", [], std=std, omit=omit, overrides={} if use_std else {"use_standard_types": False})
+                try:
+                    real = c.model_opts()
+                except Exception as e:  # noqa
+                    real = "raises " + type(e).__name__
+                reqs.append(f"cliopts {std or '-'} {'1' if omit else '0'} {'1' if use_std else '0'} 0")
+                exp.append(("cliopts", {"std": std, "omit": omit, "use_standard_types": use_std}, real))
+    # (b) standard_version on many spellings of `std` (the value the language object ends up with)
+    for sp in STD_SPELLINGS:
+        b = LanguageContextBuilder(include_experimental_languages=True).set_target_language("cpp")
+        b.set_target_language_configuration_override(Language.WKCV_LANGUAGE_OPTIONS, {"std": sp})
+        lang = b.create().get_target_language()
+        final = str(lang.get_option("std", ""))
+        try:
+            real = str(lang.standard_version)
+        except ValueError:
+            real = "err:badStdNumber"
+        reqs.append(f"stdver {enc(final)}")
+        exp.append(("stdver", {"std_option": sp, "std_after_validation": final}, real))
+        ctx.count("standard_version:" + ("raises" if real.startswith("err") else "number" if real != "0" else "zero"))
+    # (c) reference names of every composite (nested request / response included) through the real filters
+    from nunavut.lang.c import filter_full_reference_name as c_ref
+    from nunavut.lang.cpp import filter_full_reference_name as x_ref, filter_full_macro_name as x_mac
+    langs = {}
+    for strop in (True, False):
+        for tgt in ("c", "cpp"):
+            b = LanguageContextBuilder(include_experimental_languages=True).set_target_language(tgt)
+            b.set_target_language_configuration_override(Language.WKCV_ENABLE_STROPPING, strop)
+            langs[(tgt, strop)] = b.create().get_target_language()
+    seen = set()
+    for u in unis:
+        for ts in u.types.values():
+            for t in ts:
+                parts = [t.request_type, t.response_type] if isinstance(t, pydsdl.ServiceType) else [t]
+                for dt in parts + list(reach(t).values()):
+                    key = (u.name, str(dt))
+                    if key in seen:
+                        continue
+                    seen.add(key)
+                    sv = f"{dt.short_name}_{dt.version.major}_{dt.version.minor}"
+                    joined = "_".join(dt.full_namespace.split(".") + [sv])
+                    for strop in (True, False):
+                        lc, lx = langs[("c", strop)], langs[("cpp", strop)]
+                        tbl_c = f"{enc(joined)}>{enc(lc.filter_id(joined))}" if strop and lc.filter_id(joined) != joined else "!"
+                        pairs = {x: lx.filter_id(x) for x in dt.full_namespace.split(".") + [sv]} if strop else {}
+                        tbl_x = ";".join(f"{enc(a)}>{enc(b)}" for a, b in sorted(pairs.items()) if a != b) or "!"
+                        en = "1" if strop else "0"
+                        reqs.append(f"cref {en} {tbl_c} {enc_name(dt)}")
+                        exp.append(("cref", {"universe": u.name, "type": str(dt), "stropping": strop}, enc(c_ref(lc, dt))))
+                        reqs.append(f"cppref {en} {tbl_x} {enc_name(dt)}")
+                        exp.append(("cppref", {"universe": u.name, "type": str(dt), "stropping": strop}, enc(x_ref(lx, dt))))
+                        reqs.append(f"cppmacro {en} {tbl_x} {enc_name(dt)}")
+                        exp.append(("cppmacro", {"universe": u.name, "type": str(dt), "stropping": strop}, enc(x_mac(lx, dt))))
+    # (d) filter_to_snake_case: every dotted full name, then a seeded stream over an alphabet that exercises all four passes
+    from nunavut.lang.c import filter_to_snake_case
+    texts = sorted({str(dt.full_name) for u in unis for ts in u.types.values() for t in ts for dt in [t] + list(reach(t).values())})
+    texts += ["port.SubjectIDList", " aa bb. cCcAAa_aAa_AAaAa_AAaA_a ", "scotec.mcu.Timer", "HTTPServerID", "aB", "ABc", "A_B", "_A", "a..b", ".a.", "",
+              "ABCdefGHI", "xABCd", "X1Y2z", "a-b--c", "\tTabbed Name\n"]
+    alphabet = "ABCXYZabcxyz019__.. -"
+    for _ in range(300 if ctx.quick else 3000):
+        texts.append("".join(ctx.rng.choice(alphabet) for _ in range(ctx.rng.randint(0, 14))))
+    for tx in texts:
+        reqs.append(f"snake {enc(tx)}")
+        exp.append(("snake", {"text": tx}, enc(filter_to_snake_case(tx))))
+    ans = drv.ask(reqs, timeout=900)
+    for (stream, inp, real), a in zip(exp, ans):
+        ctx.traces += 1
+        ctx.count("tie:" + stream)
+        if stream == "snake" and a != real:
+            ctx.disagree(stream, inp, common.dec(a) if re.fullmatch(r"[\d.]+|-", a) else a, common.dec(real))
+            continue
+        if a != real:
+            ctx.disagree(stream, inp, common.dec(a) if stream in ("cref", "cppref", "cppmacro") and re.fullmatch(r"[\d.]+|-", a) else a,
+                         common.dec(real) if stream in ("cref", "cppref", "cppmacro") else real)
+
+
+def comp_names_tokens(c):
+    """`<isUnion> <fields> <consts>` of the driver for one PyDSDL composite (raw DSDL names, padding left out)."""
+    import pydsdl
+    inner = c.inner_type if isinstance(c, pydsdl.DelimitedType) else c
+    fs = []
+    for f in c.fields_except_padding:
+        k = "v" if isinstance(f.data_type, pydsdl.VariableLengthArrayType) else "a" if isinstance(f.data_type, pydsdl.ArrayType) else "s"
+        fs.append(f"{enc(f.name)}:{k}")
+    cs = [enc(k.name) for k in c.constants]
+    return f"{'1' if isinstance(inner, pydsdl.UnionType) else '0'} {';'.join(fs) or '!'} {';'.join(cs) or '!'}"
+
+
+_DEFINE = re.compile(r"^[ \t]*#[ \t]*define[ \t]+(\w+)", re.M)
+
+
+def c_name_clash(c):
+    """Independent predicate: a constant of the composite is named like a macro suffix the C templates generate."""
+    import pydsdl
+    fixed = {"FULL_NAME_", "FULL_NAME_AND_VERSION_", "EXTENT_BYTES_", "SERIALIZATION_BUFFER_SIZE_BYTES_", "HAS_FIXED_PORT_ID_", "FIXED_PORT_ID_",
+             "DISABLE_SERIALIZATION_BUFFER_CHECK_", "UNION_OPTION_COUNT_"}
+    arr = [f.name for f in c.fields_except_padding if isinstance(f.data_type, pydsdl.ArrayType)]
+    gen = fixed | {a + "_ARRAY_CAPACITY_" for a in arr} | {a + "_ARRAY_IS_VARIABLE_LENGTH_" for a in arr}
+    return sorted(k.name for k in c.constants if k.name in gen)
+
+
+def cpp_name_clash(c):
+    """Independent predicate: an attribute of the union is named like a member the C++ templates generate for it."""
+    import pydsdl
+    inner = c.inner_type if isinstance(c, pydsdl.DelimitedType) else c
+    if not isinstance(inner, pydsdl.UnionType):
+        return []
+    fields = [f.name for f in c.fields_except_padding]
+    gen = {"VariantType", "union_value", "_traits_", "MAX_INDEX", "IndexOf", "allocator_type"}
+    for f in fields:
+        gen |= {"is_" + f, "get_" + f, "get_" + f + "_if", "set_" + f}
+    return sorted(a.name for a in c.attributes if a.name and a.name in gen)
+
+
+_NAME_ORACLE_SEEN = set()
+
+
+def c_reference_name_oracle(ctx, u, c, lang, out, all_types, flags):
+    """The property's predicate on the implementation: two different composite types of one universe must not get one C
+    reference name.  Witnessed with the compiler: a translation unit that includes both headers and uses a member only the
+    second type has."""
+    import pydsdl
+    from nunavut.lang.c import filter_full_reference_name as c_ref
+    by_name = {}
+    for t in all_types:
+        for dt in ([t, t.request_type, t.response_type] if isinstance(t, pydsdl.ServiceType) else [t]):
+            by_name.setdefault(c_ref(lang, dt), []).append((t, dt))
+    for name, group in sorted(by_name.items()):
+        if len(group) < 2:
+            continue
+        key = (u.name, name, c.ident)
+        if key in _NAME_ORACLE_SEEN:
+            continue
+        _NAME_ORACLE_SEEN.add(key)
+        (ta, a), (tb, b) = group[0], group[1]
+        fa = {f.name for f in a.fields_except_padding}
+        fb = {f.name for f in b.fields_except_padding}
+        first_t, second_t, member = (ta, tb, sorted(fb - fa)) if fb - fa else (tb, ta, sorted(fa - fb))
+        diag = None
+        if member and not isinstance(first_t, pydsdl.ServiceType) and not isinstance(second_t, pydsdl.ServiceType):
+            tu = (f'#include "{lang_path(lang, first_t)}"\n#include "{lang_path(lang, second_t)}"\n'
+                  f"static inline void probe_(const {name}* const p) {{ (void) p->{lang.filter_id(member[0])}; }}\n")
+            cmd = ["gcc", "-std=c11"] + flags["c"] + flags["gnu_extra"] + ["-fsyntax-only", "-I", str(out), "-x", "c", "-"]
+            try:
+                p = subprocess.run(cmd, input=tu, capture_output=True, text=True, timeout=CC_TIMEOUT)
+                lines = p.stderr.replace(str(out) + "/", "").splitlines()
+                diag = next((l for l in lines if re.search(r"\berror\b", l)), None) if p.returncode != 0 else "(compiles: the member exists in both)"
+            except subprocess.TimeoutExpired:
+                diag = "timeout"
+        ctx.fail({"kind": "c-reference-name-collision"},
+                 f"{a} and {b} ({c.ident}) both get the C reference name {name}; a translation unit that includes both headers sees one "
+                 f"definition only" + (f": {diag}" if diag else ""),
+                 replay_blob(u, c, {"colliding_types": [str(a), str(b)], "c_name": name, "probe_member": member[:1], "diagnostic": diag}))
+
+
+def regenerate_tables(ctx):
+    """The generated tables Model/DepsOpts.lean reads (shared with C13 / C08 / C17): rewritten only when the tree changed."""
+    import importlib.util
+    tr = ctx.extra.setdefault("translator", {})
+
+    def load(name):
+        spec = importlib.util.spec_from_file_location("verif_translate_" + name, str(common.VERIF / "translate" / (name + ".py")))
+        m = importlib.util.module_from_spec(spec)
+        spec.loader.exec_module(m)
+        return m
+    jobs = [("cppdefaults", lambda m: m.main(common.REPO)), ("clioptions", lambda m: m.main(common.REPO)),
+            ("supportfiles", lambda m: m.main(common.LEAN / "NunavutVerif" / "Gen" / "SupportFiles.lean")["changed"])]
+    for name, call in jobs:
+        try:
+            tr[name] = "rewritten" if call(load(name)) else "unchanged"
+        except Exception as e:  # noqa  (the translator can no longer express the source: tie broken)
+            ctx.broken.append({"kind": "translator", "translator": name, "error": repr(e)[:300]})
+    try:
+        if str(common.VERIF) not in sys.path:
+            sys.path.insert(0, str(common.VERIF))
+        from translate import optiondomain
+        optiondomain.generate()
+        tr["optiondomain"] = "ran"
+    except Exception as e:  # noqa
+        ctx.broken.append({"kind": "translator", "translator": "optiondomain", "error": repr(e)[:300]})
+
+
 def run(ctx: common.Ctx):
+    regenerate_tables(ctx)
     drivers = ctx.prove(["C06"], exes=["deps"])
     drv = drivers.get("deps")
     quick = ctx.quick
@@ -772,14 +1005,23 @@ def run(ctx: common.Ctx):
         raise RuntimeError(f"compilers missing: {tools}")
     ctx.rule = ("one case = (type, generation configuration); types from the corpus namespaces (hand-written stress: keyword / reserved names, "
                 "services, deprecated, empty, 64-bit wide, sealed and non-sealed unions, cross-root dependencies, include-guard twins) plus seeded "
-                "dsdlgen / dsdlgen_simple namespaces; configurations = C / C++14,17,20,17-pmr / Python x serialization enabled|omitted x option sets; "
+                "dsdlgen / dsdlgen_simple namespaces; configurations = C / C++14,17,20,17-pmr,built-in std / Python x serialization enabled|omitted x "
+                "option sets (endianness any|little|big, asserts, capacity override, omit float, use_standard_types on|off, constructor conventions; "
+                "cetl generated and scanned only); corpus `matrix` (service, deprecated, padding-only, zero-bit, unions of composites / arrays, "
+                "fixed / variable arrays of bool / primitives / composites / delimited fixed-size composites, arrays nested two deep) meets every "
+                "configuration in both tiers; option record of every --language-standard choice x omit x use_standard_types, 37 std spellings, "
+                "reference names of every composite with stropping on and off; "
                 "non-trivial = the type has a dependency, a union, an array or a fixed port-ID; distinct by (universe, type, configuration)")
     ctx.assumptions = [
         "the compilers of this sandbox (gcc/g++ 12, clang/clang++ 14, libstdc++) judge 'no diagnostic'; -fsyntax-only (no optimiser-dependent warnings)",
         "stropping (filter_id / filter_short_reference_name) and macrofy enter the model as tables computed by the real code (C09 / C11 cover them)",
         "`provides`: standard headers by the C/C++ standard, `<limits>` also providing std::size_t (library practice), the option-given includes "
         "provide what the options of the same name promise",
-        "C++ with use_standard_types=false and the cetl++14-17 flavour are generated and scanned, not compiled (CETL is not available offline)",
+        "the cetl++14-17 flavour is generated and scanned, not compiled (CETL is not available offline)",
+        "the option tables (Gen/CppDefaults, CliOptions, SupportFiles, OptionDomain) are regenerated from the tree on every run; the pattern "
+        "classes \\d / \\w of standard_version are modelled over ASCII",
+        "stropping enters the name theorems as a function (its table comes from the real filter_id on the tie); collisions through stropping "
+        "are excluded by the property statement",
     ]
     import time
     phases = ctx.extra.setdefault("phase_seconds", {})
@@ -844,16 +1086,20 @@ def run(ctx: common.Ctx):
                     ctx.disagree("deps-closure", {"universe": u.name, "type": str(t)}, sorted(rk), real[0])
 
     phase("deps-tie")
+    if drv is not None:
+        option_and_name_ties(ctx, drv, unis)
+    phase("options+names-tie")
     # ---- generation (parallel) ---------------------------------------------------------------------------------------
     gen_jobs = []
     for ui, u in enumerate(unis):
         for ci, c in enumerate(cfgs):
-            if c.only and c.only not in u.name:
+            named = bool(c.only)      # the configuration names this universe: it meets it whatever its LIGHT mark says
+            if c.only and not any(x in u.name for x in ([c.only] if isinstance(c.only, str) else c.only)):
                 continue
             # quick tier: the corpus meets every configuration; a generated universe the three basic ones and every second of the rest
             if quick and u.origin != "corpus" and c.ident not in ("c/default", "c/little", "cpp/c++17", "py/default") and (ci + ui) % 2:
                 continue
-            if quick and getattr(u, "light", False) and c.ident not in LIGHT_CONFIGS:
+            if quick and getattr(u, "light", False) and c.ident not in LIGHT_CONFIGS and not named:
                 continue
             out = ctx.scratch / "out" / f"u{ui}" / c.ident.replace("/", "_")
             out.mkdir(parents=True)
@@ -911,6 +1157,9 @@ def run(ctx: common.Ctx):
                         closure(q, seen, quoted)
                 return seen
             mopts = c.model_opts()
+            type_of_header = {lang_path(lang, t): t for t in all_types}
+            if c.target == "c":
+                c_reference_name_oracle(ctx, u, c, lang, out, all_types, flags)
             vla_t = str(lang.get_option("variable_array_type_template", "")) if c.target == "cpp" else ""
             alloc_t = str(lang.get_option("allocator_type", "")) if c.target == "cpp" else ""
             for t in all_types:
@@ -943,6 +1192,27 @@ def run(ctx: common.Ctx):
                 else:
                     reqs.append(f"fac {c.target} fix {mopts} {pc} {top}")
                     meta.append(("fac", u, c, t, rel, facs))
+                if c.target == "c":
+                    # round 2: the #define'd names of the header in file order (include guard aside) vs the model
+                    import pydsdl
+                    from nunavut.lang.c import filter_full_reference_name as c_ref
+                    plain = _LEX.sub(lambda m: " " if m.group(0)[:2] in ("//", "/*") else m.group(0), texts[rel])
+                    gm = re.search(r"^#ifndef (\w+)\s*\n#define \1\b", plain, re.M)
+                    defs = [d for d in _DEFINE.findall(plain) if not (gm and d == gm.group(1))]
+                    ovr = "1" if "--enable-override-variable-array-capacity" in c.args else "0"
+                    fp = "1" if t.has_fixed_port_id else "0"
+                    if isinstance(t, pydsdl.ServiceType):
+                        rq, rs = t.request_type, t.response_type
+                        reqs.append(f"cdefs {ovr} S {enc(c_ref(lang, t))} {fp} {enc(c_ref(lang, rq))} {comp_names_tokens(rq)} "
+                                    f"{enc(c_ref(lang, rs))} {comp_names_tokens(rs)}")
+                        parts_ = [rq, rs]
+                    else:
+                        reqs.append(f"cdefs {ovr} M {enc(c_ref(lang, t))} {fp} {comp_names_tokens(t)}")
+                        parts_ = [t]
+                    meta.append(("cdefs", u, c, t, rel, defs))
+                    for pt in parts_:
+                        reqs.append(f"cclear {comp_names_tokens(pt)}")
+                        meta.append(("cclear", u, c, t, rel, "0" if c_name_clash(pt) else "1"))
                 if c.target == "cpp":
                     nsn = [lang.filter_id(x) if lang.enable_stropping else x for x in t.full_namespace.split(".")]
                     reqs.append("nsopen " + "|".join(enc(x) for x in nsn))
@@ -952,9 +1222,13 @@ def run(ctx: common.Ctx):
                     body = strip_text(texts[rel])[1]
                     if body.count("{") != body.count("}"):
                         ctx.fail({"kind": "unbalanced-braces"}, "generated C++ header with unbalanced braces", replay_blob(u, c, {"header": rel}))
-                from nunavut.lang.c import filter_macrofy
-                mac = filter_macrofy(c_lang_for_macrofy(), t.full_name)
-                reqs.append(f"guard {enc(mac)} {t.version.major} {t.version.minor} {enc('_INCLUDED_' if c.target == 'c' else '_HPP_INCLUDED')}")
+                # the include guard from the dotted full name: the model's macrofy; only filter_id(., "macro") enters as a table
+                from nunavut.lang.c import filter_to_screaming_snake_case
+                cl = c_lang_for_macrofy()
+                raw = filter_to_screaming_snake_case(str(t.full_name))
+                mtbl = f"{enc(raw)}>{enc(cl.filter_id(raw, 'macro'))}" if cl.filter_id(raw, "macro") != raw else "!"
+                reqs.append(f"guardname {'1' if cl.enable_stropping else '0'} {mtbl} {enc(str(t.full_name))} {t.version.major} {t.version.minor} "
+                            f"{enc('_INCLUDED_' if c.target == 'c' else '_HPP_INCLUDED')}")
                 meta.append(("guard", u, c, t, rel, texts[rel]))
             if c.compile_ok:
                 to_compile = headers
@@ -965,7 +1239,7 @@ def run(ctx: common.Ctx):
                 for j in compile_jobs_for(c, out, to_compile, flags, quick):
                     j = j + (tuple(c.args),)
                     compile_jobs.append(j)
-                    job_ctx[id(j)] = (u, c, collided, closure)
+                    job_ctx[id(j)] = (u, c, collided, closure, type_of_header)
         else:
             py_runs.append((u, c, out))
             for t in all_types:
@@ -1026,13 +1300,24 @@ def run(ctx: common.Ctx):
                 must, may, unc = [set() if x == "-" else set(x.split(",")) for x in m.groups()]
                 if not (must <= real <= (must | may)):
                     ctx.disagree("facilities", where, {"must": sorted(must), "may": sorted(may)}, sorted(real))
-                opts_ok = c.target == "c" or c.language().get_config_value_as_bool("use_standard_types")
+                # the hypothesis of C06_facilities_covered_cpp_map (`mapDelivers`), read off the real options
+                lo = c.language()
+                opts_ok = c.target == "c" or (
+                    (str(lo.get_option("ctor_convention", "default")) == "default" or str(lo.get_option("allocator_include", "")) != "")
+                    and str(lo.get_option("variable_array_type_include", "")) != "")
                 if unc and opts_ok:
                     ctx.disagree("facility-coverage", where, {"uncovered": sorted(unc)}, "theorem C06_facilities_covered says none")
                 elif unc:
-                    ctx.count("uncovered_outside_the_theorem_hypotheses(cpp,use_standard_types=false)")
+                    ctx.count("uncovered_outside_the_theorem_hypotheses(cpp, option map does not deliver its includes)")
                 for f in real:
                     ctx.count("facility:" + f)
+            elif kind == "cdefs":
+                model = [common.dec(x) for x in a.split("|")] if a not in ("!", "bad-op") else ([] if a == "!" else a)
+                if model != real:
+                    ctx.disagree("c-defines", where, model, real)
+            elif kind == "cclear":
+                if a != real:
+                    ctx.disagree("c-consts-clear", where, a, real)
             elif kind in ("nsopen", "nsclose"):
                 s = common.dec(a)
                 if s not in real:
@@ -1057,12 +1342,22 @@ def run(ctx: common.Ctx):
             if first is None:
                 continue
             ndiag += 1
-            u, c, collided, closure = job_ctx[id(job)]
+            u, c, collided, closure, type_of_header = job_ctx[id(job)]
             outdir, header, cmd, xlang = job[:4]
             inc_set = [header] + sorted(closure(header))
             gs = [collided[x] for x in inc_set if x in collided]
             gc = len(set(gs)) < len(gs)      # the translation unit contains two headers with one include guard
             cause = c.cause or classify(c, cmd, first, gc)
+            if not c.cause and not gc:
+                # round 2: a DSDL attribute named like something the templates generate for the same type (the independent
+                # predicates c_name_clash / cpp_name_clash say so for a type defined in this translation unit)
+                import pydsdl
+                here = [type_of_header[h] for h in inc_set if h in type_of_header]
+                parts_ = [p for t in here for p in ([t.request_type, t.response_type] if isinstance(t, pydsdl.ServiceType) else [t])]
+                if c.target == "c" and re.search(r"redefined", first) and any(c_name_clash(p) for p in parts_):
+                    cause = "c-constant-named-like-generated-macro"
+                elif c.target == "cpp" and any(cpp_name_clash(p) for p in parts_) and re.search(r"\berror\b", first):
+                    cause = "cpp-attribute-named-like-generated-member"
             if c.target == "cpp" and cause.startswith("cpp:"):
                 # a DSDL name that the C++ configuration leaves alone although it is a macro of an included C library header
                 if id(u) not in ident_cache:
@@ -1191,6 +1486,15 @@ def replay(ctx, path):
         print(json.dumps(res))
         ctx.cleanup()
         return 1 if res else 0
+    if "colliding_types" in rp:
+        import pydsdl
+        from nunavut.lang.c import filter_full_reference_name as c_ref
+        uni.read()
+        lang = cfg.language()
+        names = {str(t): c_ref(lang, t) for ts in uni.types.values() for t in ts if str(t) in rp["colliding_types"]}
+        print(json.dumps({"c_reference_names": names}))
+        ctx.cleanup()
+        return 1 if len(set(names.values())) < len(names) else 0
     if "guard" in rp:
         gs = [re.search(r"^#ifndef (\w+)", (out / h).read_text(), re.M).group(1) for h in rp["headers"]]
         print(json.dumps({"headers": rp["headers"], "guards": gs}))
